@@ -52,6 +52,7 @@ type Contract struct {
 	Counts     [][2]string // ghost call counters: (name, callee pattern)
 	Shared     []string    // locations other goroutines may write: havoced at blocking operations
 	HavocPreserves []string // struct types (pkg.Type) assumed not to be written by uncontracted callees
+	NonNil         []string // callees whose first result is assumed non-nil
 	// contracts on function literals ("Parent$N")
 	IsClosure    bool
 	FreeVars     string   // "name T, ..." : captured variables (by reference), in the literal's scope
@@ -284,6 +285,12 @@ func parseContractFile(path string) (*ContractFile, error) {
 					return nil, fmt.Errorf("%s:%d: count needs NAME PATTERN", path, ln)
 				}
 				cur.Counts = append(cur.Counts, [2]string{f[0], f[1]})
+			case "nonnil":
+				// nonnil PATTERN, ...: the (first) result of these callees is never nil - an assumption about code
+				// outside the contract, listed in the evidence
+				for _, m := range splitTop(rest, ',') {
+					cur.NonNil = append(cur.NonNil, strings.TrimSpace(m))
+				}
 			case "forbid":
 				// forbid PATTERN: the function has no call site (send, select case) matching the pattern
 				f := strings.Fields(rest)
